@@ -25,6 +25,41 @@ func (c *Ctx) ruleHandle() {
 			}
 		}
 	}
+	// Init always replaces the instance: every return path has stored a fresh condition into the
+	// handle (whatever the receiver held before - "Init ... replaces the instance")
+	if fn := c.p.ByName["(*Condition).Init"]; fn != nil {
+		fa := c.eng.analyze(fn, nil)
+		n, bad := 0, false
+		for _, rs := range fa.rets {
+			if rs.st.dead {
+				continue
+			}
+			n++
+			fresh := false
+			for _, cell := range rs.st.heap {
+				if cell.loc == "HANDLE" {
+					ss := srcSet{}
+					c.sources(fn, cell.val, 0, map[ssa.Value]bool{}, ss)
+					for k := range ss {
+						if strings.HasPrefix(k, "call:") || k == "alloc" {
+							fresh = true
+						}
+					}
+					if call, ok := cell.val.(*ssa.Call); ok && c.calleeName(&call.Call) == "initCondition" {
+						fresh = true
+					}
+				}
+			}
+			if !fresh {
+				bad = true
+			}
+		}
+		if n > 0 && !bad {
+			rep.ok("R-HANDLE", "(*Condition).Init", "always re-seats", c.p.pos(fn.Pos()), fmt.Sprintf("on each of the %d return paths the handle holds a freshly made condition", n))
+		} else {
+			rep.bad("R-HANDLE", "(*Condition).Init", "always re-seats", c.p.pos(fn.Pos()), "Init can return without having replaced the instance: keyword, operator, options or a recorded error of the old one would survive")
+		}
+	}
 	// Free is complete: wherever it returns with the instance initialised and its read-only flag
 	// tested false, the handle has been zeroed (no other condition - a mutex, a kind - keeps it alive)
 	for _, name := range []string{"(*Stack).Free", "(*Condition).Free"} {
